@@ -1288,6 +1288,14 @@ def replay_one(ctx, pid):
         print('[%s] replay file has no operation history (%s)' % (pid, rp.get('broken')))
         return
     im = ctx.harness('drive_store.py', {'histories': [ops]})['histories'][0]
+    if any(o.get('wfail') for o in ops):
+        hits, _n = write_fault_oracle(ops, im)
+        ctx.count(evaluations=len(ops), nontrivial_keys=[('replay', json.dumps(ops)), 'x'])
+        for h in hits:
+            ctx.violation(h['kind'], h['fields'], '%s: %s' % (pid, h['what']), {'source': 'oracle', 'ops': ops})
+        if not hits:
+            print('[%s] replay: the history no longer violates the property' % pid)
+        return
     orc = run_oracles(ops, im)
     ctx.count(evaluations=len(ops), nontrivial_keys=[('replay', json.dumps(ops)), 'x'])
     for prop, kind, fields, what in orc.hits:
@@ -1295,6 +1303,102 @@ def replay_one(ctx, pid):
             ctx.violation(kind, fields, what, {'source': 'oracle', 'ops': ops})
     if not [h for h in orc.hits if h[0] == pid]:
         print('[%s] replay: the history no longer violates the property' % pid)
+
+
+def write_fault_study(ctx):
+    '''C08, oracle only (no model, no theorem speaks about these histories):
+    a write to one of the five catalogue tables is refused by the file system
+    (OSError) in the middle of an operation, the database process carries on,
+    more names are registered, the database is closed and reopened.  Checked on
+    the implementation's own tables after every operation: each name table is a
+    bijection onto 0..n-1, the id->name index is its inverse (also after the
+    reopen), no id is reassigned, every primary key resolves, and no operation
+    other than the refused one raises.'''
+    n = ctx.n(30, 300)
+    hs = []
+    for i in range(n):
+        rng = random.Random('%s:C08:wfault:%d' % (ctx.seed, i))
+        g = Gen(rng, small=True, focus='C08')
+        h = []
+        for _ in range(rng.randint(2, 5)):
+            o = g.op(allow_crash=False)
+            if o is not None:
+                h.append(o)
+        # a fresh name in every table, so that the refused write is a new row
+        fresh = {'op': 'upd', 'run': rng.randint(1, 4), 'tn': 'NEWT%d' % i,
+                 'task': rng.choice(g.tasks), 'alg': 'newalg%d' % i, 'aver': [1, 0, 0],
+                 'sv': rng.choice(g.svs), 'sver': [1, 0, 0],
+                 'vals': [[rng.choice(g.vals), [1, 0, 0], rng.randint(0, 3)]],
+                 'crash': None, 'wfail': rng.randint(1, 4)}
+        if rng.random() < 0.3:
+            fresh = {'op': 'add', 'tn': 'NEWT%d' % i, 'wfail': 1}
+        h.append(fresh)
+        for _ in range(rng.randint(2, 6)):
+            o = g.op(allow_crash=False)
+            if o is not None:
+                if o['op'] in ('upd', 'reg') and rng.random() < 0.5:
+                    o = dict(o, alg='later%d' % rng.randint(0, 2))
+                if o['op'] == 'add':
+                    o = dict(o, tn='LATER%d' % rng.randint(0, 2))
+                h.append(o)
+        h.append({'op': 'reopen'})
+        h.append({'op': 'add', 'tn': 'AFTER%d' % i})
+        h.append({'op': 'names'})
+        hs.append([o for o in h if o['op'] not in ('trace', 'reset', 'remove', 'next')])
+    out = ctx.harness('drive_store.py', {'histories': hs})['histories']
+    hits, refused = [], 0
+    for h, r in zip(hs, out):
+        hh, n = write_fault_oracle(h, r)
+        hits += hh
+        refused += n
+    ctx.note('write_fault_histories', {'histories': len(hs), 'writes_refused': refused,
+                                       'note': 'oracle only: a catalogue-table write raises OSError once, '
+                                               'the process carries on; structural invariants of the five '
+                                               'tables checked after every operation and after the reopen'})
+    ctx.count(evaluations=len(hs))
+    return hits
+
+
+def write_fault_oracle(h, r):
+    hits, refused = [], 0
+    names = ('target', 'task', 'alg', 'state', 'value')
+    if True:
+        prev_idx = None
+        for si, (hop, ob) in enumerate(zip(h, r['obs'])):
+            bad = None
+            refused += bool(ob.get('write_refused'))
+            if 'exc' in ob['reply'] and not ob.get('write_refused'):
+                bad = ('exception', '%s raised %s in a history with a refused catalogue write'
+                       % (hop['op'], ob['reply']['exc']))
+            d = ob.get('dump')
+            if d and not bad:
+                for tn, idx, tbl in zip(names, d['indices'], d['tables']):
+                    ids = sorted(i for _, i in tbl)
+                    if ids != list(range(len(tbl))):
+                        bad = ('catalogue-gap', 'ids of table %s are %s: not 0..n-1' % (tn, ids))
+                    elif len(idx) != len(tbl) or any(idx[i] != nm for nm, i in tbl):
+                        bad = ('index-not-inverse', 'id->name index of %s %s is not the inverse of the table %s'
+                               % (tn, idx, tbl))
+                    if bad:
+                        break
+                if not bad and prev_idx is not None:
+                    for tn, old, new, tbl in zip(names, prev_idx, d['indices'], d['tables']):
+                        persisted = {nm for nm, _ in tbl}
+                        if any(o in persisted and (k >= len(new) or new[k] != o) for k, o in enumerate(old)):
+                            bad = ('id-reassigned', 'ids of table %s changed: %s -> %s' % (tn, old, new))
+                            break
+                if not bad:
+                    for key, _f, _b in ob['prime']:
+                        ident = key_identity(tuple(key), d['indices'])
+                        if isinstance(ident, str):
+                            bad = ('chain', 'prime key %s: %s' % (key, ident))
+                            break
+                prev_idx = d['indices']
+            if bad:
+                hits.append({'property': 'C08', 'kind': bad[0], 'fields': {'cause': 'refused-catalogue-write'},
+                             'what': bad[1], 'ops': h[:si + 1], 'history': h})
+                break
+    return hits, refused
 
 
 def run_check(ctx, pid, with_units=False):
@@ -1318,6 +1422,8 @@ def run_check(ctx, pid, with_units=False):
         ctx.log('escalating the search to thorough depth')
         res2 = study(ctx, pid, True)
         mine = [h for h in res2['hits'] if h['property'] == pid]
+    if pid == 'C08' and not mine:
+        mine += write_fault_study(ctx)
     for h in mine:
         rp = {'source': 'oracle', 'ops': h.get('ops'), 'unit': h.get('unit'),
               'history': h.get('history')}
